@@ -258,6 +258,32 @@ pub fn take_words_qmc(g: &GQ, seen: &mut usize) -> Vec<Word> {
     out
 }
 
+/// A two-site DIAGONAL term written as a FULL 4x4 matrix (zero off-diagonal entries). Half of them are symmetric
+/// under a global spin flip; the others break the symmetry either in the mixed rows only (|01> vs |10>, a
+/// staggered field — possibly with a zero entry) or in the aligned rows (|00> vs |11>).  A sampler holding an
+/// asymmetric one must never run the plain cluster update.
+fn full_two_site_diagonal(rng: &mut SplitMix64, nvars: usize) -> BondSpec {
+    let d = |rng: &mut SplitMix64| (1 + rng.below(12)) as f64 * 0.25;
+    let vs = pick_distinct(rng, nvars, 2);
+    let (a, b) = (d(rng), d(rng));
+    let (mut c, mut e) = (b, a);
+    match rng.below(4) {
+        0 | 1 => {}
+        2 => {
+            c = if rng.chance(1, 2) { 0.0 } else { b + 0.25 * (1 + rng.below(4)) as f64 };
+        }
+        _ => {
+            e = a + 0.25 * (1 + rng.below(4)) as f64;
+        }
+    }
+    let mut m = vec![0.0; 16];
+    m[0] = a;
+    m[5] = b;
+    m[10] = c;
+    m[15] = e;
+    BondSpec { kind: 0, mat: m, vars: vs }
+}
+
 /// Random interaction sets of the classes the property names.
 pub fn random_qmc(rng: &mut SplitMix64) -> QmcSpec {
     let mut nvars = 1 + rng.below(4) as usize;
@@ -323,6 +349,9 @@ pub fn random_qmc(rng: &mut SplitMix64) -> QmcSpec {
             if rng.chance(1, 4) {
                 bonds.push(BondSpec { kind: 2 * rng.below(2) as usize, mat: vec![d(rng)], vars: vec![] });
             }
+            if nvars >= 2 && rng.chance(1, 3) {
+                bonds.push(full_two_site_diagonal(rng, nvars));
+            }
             // a single-site diagonal table with equal entries: an energy shift, never a cluster boundary
             if rng.chance(1, 3) {
                 let c = d(rng);
@@ -350,6 +379,9 @@ pub fn random_qmc(rng: &mut SplitMix64) -> QmcSpec {
                     }
                 }
                 bonds.push(BondSpec { kind: 2 + rng.below(2) as usize, mat: m, vars: vs });
+            }
+            if nvars >= 2 && rng.chance(1, 2) {
+                bonds.push(full_two_site_diagonal(rng, nvars));
             }
         }
         4 => {
